@@ -18,12 +18,15 @@ VARIABLE cs
 Alphabet == {60, 62, 38, 34, 39, 97, 59, 35, 51, 57, 233, 8364, -255, 0}
 Strs(n) == UNION {[1..k -> Alphabet] : k \in 0..n}
 Seeds == { <<38, 97, 109, 112, 59>>, <<38, 35, 51, 57, 59>>, <<38, 108, 116, 59, 60>>,
-           <<60, 115, 99, 114, 105, 112, 116, 62>>, <<97, 32, 60, 32, 98, 32, 38, 38, 32, 99>> }
+           <<60, 115, 99, 114, 105, 112, 116, 62>>, <<97, 32, 60, 32, 98, 32, 38, 38, 32, 99>>,
+           \* backslashes next to quotes (as literals in the source they are written with escapes)
+           <<60, 98, 62, 92, 39>>, <<92, 39>>, <<92, 92, 39>>, <<39, 92>>, <<92>>, <<60, 92, 92>>, <<92, 34, 60>> }
 
 Positions == {"print", "afterfilter", "beforefilter", "apply", "macro", "include", "ifcond", "set", "concat",
               "afterraw", "afterrawtrim", "twice", "twicetrim", "applytwice", "settwice", "mixed",
               "nestedchain", "nestedarg", "nestedboth", "sandboxdefault", "foreign", "forseq",
-              "litdefault", "litformat", "litreplace", "applychain", "applychain2", "applyargs"}
+              "litdefault", "litformat", "litreplace", "applychain", "applychain2", "applyargs",
+              "literal", "literalset", "macroout", "macrooutset", "macrooutarg", "parentset", "parentprint"}
 OtherName(f) == IF f = "e" THEN "escape" ELSE "e"
 
 \* program for filter name f applied to variable s in position pos; pre/post are the
@@ -64,11 +67,31 @@ Prog(pos, f) ==
       [] pos = "applychain"   -> ("main" :> <<Text(<<91>>), RawStmt(<<W("{% apply trim|"), W(f), W(" %}{{ s }}{% endapply %}")>>), Text(<<93>>)>>)
       [] pos = "applychain2"  -> ("main" :> <<Text(<<91>>), RawStmt(<<W("{% apply raw|trim|"), W(f), W(" %}{{ s }}{% endapply %}")>>), Text(<<93>>)>>)
       [] pos = "applyargs"    -> ("main" :> <<Text(<<91>>), RawStmt(<<W("{% apply "), W(f), W("('html') %}{{ s }}{% endapply %}")>>), Text(<<93>>)>>)
+      \* the string stands in the source as a literal
+      [] pos = "literal"      -> ("main" :> <<Text(<<91>>), PrintS(Filt(f, Lit(VS(<<>>)), <<>>)), Text(<<93>>)>>)     \* (placeholder: see ProgOf)
+      [] pos = "literalset"   -> ("main" :> <<Text(<<91>>), PrintS(Filt(f, Lit(VS(<<>>)), <<>>)), Text(<<93>>)>>)
+      \* what a macro rendered (markup of its own around its argument) is a string like any other: escaping it escapes all of it
+      [] pos = "macroout"     -> ("main" :> <<Macro("mm", <<Param("x")>>, <<Text(<<60>>), PrintS(Var("x")), Text(<<62>>)>>),
+                                             Text(<<91>>), PrintS(Filt(f, Call("mm", <<Var("s")>>), <<>>)), Text(<<93>>)>>)
+      [] pos = "macrooutset"  -> ("main" :> <<Macro("mm", <<Param("x")>>, <<Text(<<60>>), PrintS(Var("x")), Text(<<62>>)>>),
+                                             Set("z", Call("mm", <<Var("s")>>)), Text(<<91>>), PrintS(Filt(f, Var("z"), <<>>)), Text(<<93>>)>>)
+      [] pos = "macrooutarg"  -> ("main" :> <<Macro("mm", <<Param("x")>>, <<Text(<<60>>), PrintS(Var("x")), Text(<<62>>)>>), Macro("id", <<Param("y")>>, <<PrintS(Filt(f, Var("y"), <<>>))>>),
+                                             Text(<<91>>), PrintS(Call("id", <<Call("mm", <<Var("s")>>)>>)), Text(<<93>>)>>)
+      \* what parent() rendered, escaped and kept in a variable while other text is written, then printed
+      [] pos = "parentset"    -> ("main" :> <<Extends(LS(NT.t1)), Block("bb", <<Set("p", Filt(f, Call("parent", <<>>), <<>>)), Text(<<91, 60, 104, 49, 32, 99, 108, 97, 115, 115, 61, 34, 116, 34, 62>>),
+                                                                                  PrintS(Var("p")), Text(<<60, 47, 104, 49, 62, 93>>)>>)>>)
+                                 @@ ("t1" :> <<Block("bb", <<PrintS(Var("s"))>>)>>)
+      [] pos = "parentprint"  -> ("main" :> <<Extends(LS(NT.t1)), Block("bb", <<Text(<<91>>), PrintS(Filt(f, Call("parent", <<>>), <<>>)), Text(<<93>>)>>)>>)
+                                 @@ ("t1" :> <<Block("bb", <<Text(<<60>>), PrintS(Var("s")), Text(<<62>>)>>)>>)
       [] pos = "concat"       -> ("main" :> <<Text(<<91>>), PrintS(Bin("~", Filt(f, Var("s"), <<>>), LS(<<122>>))), Text(<<93>>)>>)
-Pre(pos)  == IF pos = "macro" THEN <<91, 60>> ELSE <<91>>
-Post(pos) == CASE pos = "macro" -> <<62, 93>> [] pos = "concat" -> <<122, 93>> [] OTHER -> <<93>>
+ProgOf(c, f) == CASE c.pos = "literal" -> ("main" :> <<Text(<<91>>), PrintS(Filt(f, Lit(c.v), <<>>)), Text(<<93>>)>>)
+                  [] c.pos = "literalset" -> ("main" :> <<Set("z", Bin("~", Lit(c.v), LS(<<>>))), Text(<<91>>), PrintS(Filt(f, Var("z"), <<>>)), Text(<<93>>)>>)
+                  [] OTHER -> Prog(c.pos, f)
+Pre(pos)  == CASE pos = "macro" -> <<91, 60>> [] pos = "parentset" -> <<91, 60, 104, 49, 32, 99, 108, 97, 115, 115, 61, 34, 116, 34, 62>> [] OTHER -> <<91>>
+Post(pos) == CASE pos = "macro" -> <<62, 93>> [] pos = "concat" -> <<122, 93>> [] pos = "parentset" -> <<60, 47, 104, 49, 62, 93>> [] OTHER -> <<93>>
 \* the text that is escaped: default('d') replaces the empty string before / after
-InText(pos, v) == IF pos \in {"afterfilter"} /\ TextOf(v) = <<>> THEN <<100>> ELSE TextOf(v)
+InText(pos, v) == IF pos \in {"afterfilter"} /\ TextOf(v) = <<>> THEN <<100>>
+                  ELSE IF pos \in {"macroout", "macrooutset", "macrooutarg", "parentprint"} THEN <<60>> \o TextOf(v) \o <<62>> ELSE TextOf(v)
 WholeIsD(pos, v) == pos = "beforefilter" /\ TextOf(v) = <<>>
 
 \* non-string values whose text form holds markup
@@ -82,10 +105,10 @@ BigInts == {VBig(<<57, 50, 50, 51, 51, 55, 50, 48, 51, 54, 56, 53, 52, 55, 55, 5
 Values == {VS(s) : s \in Strs(MaxLen) \cup Seeds} \cup {VI(5), VI(-3), Null} \cup GoValues \cup BigInts
 PrintOnly == {VS(s) : s \in Strs(MaxLenPrint) \ Strs(MaxLen)}
 \* (what the format filter makes of a value that is not a string is Go's business: %!s(int=5))
-Cases == {c \in {[pos |-> p, v |-> v] : p \in Positions, v \in Values} : c.pos = "litformat" => c.v.t = "str"} \cup {[pos |-> "print", v |-> v] : v \in PrintOnly}
+Cases == {c \in {[pos |-> p, v |-> v] : p \in Positions, v \in Values} : c.pos \in {"litformat", "literal", "literalset"} => (c.v.t = "str" /\ \A i \in 1..Len(c.v.s) : c.v.s[i] > 0)} \cup {[pos |-> "print", v |-> v] : v \in PrintOnly}
 
 \* (the policy the engine provides by default allows escape -- so the documentation -- and hence its alias)
-Ref(c, f) == Render(MkW(Prog(c.pos, f), {"escape", "e"}, {}, NoFault), "main", ("s" :> c.v))
+Ref(c, f) == Render(MkW(ProgOf(c, f), {"escape", "e"}, {}, NoFault), "main", ("s" :> c.v))
 
 MayFail == {"applychain", "applychain2", "applyargs"}
 \* ("rerender": the same engine renders again with another value of s; a fresh engine decides what that must give)
@@ -100,8 +123,8 @@ CaseOf(c) ==
      aux |-> [in |-> InText(c.pos, c.v), pre |-> Pre(c.pos), post |-> Post(c.pos), isd |-> WholeIsD(c.pos, c.v),
               twice |-> c.pos \in {"twice", "twicetrim", "applytwice", "settwice", "mixed", "nestedboth"},
               mayfail |-> c.pos \in MayFail],
-     runs |-> <<[label |-> "escape", tp |-> Sources(Prog(c.pos, "escape"), LMin), xcalls |-> [id \in {} |-> 0]] @@ RunOpts(c.pos),
-                [label |-> "e", tp |-> Sources(Prog(c.pos, "e"), LMin), xcalls |-> [id \in {} |-> 0]] @@ RunOpts(c.pos)>>,
+     runs |-> <<[label |-> "escape", tp |-> Sources(ProgOf(c, "escape"), LMin), xcalls |-> [id \in {} |-> 0]] @@ RunOpts(c.pos),
+                [label |-> "e", tp |-> Sources(ProgOf(c, "e"), LMin), xcalls |-> [id \in {} |-> 0]] @@ RunOpts(c.pos)>>,
      \* the exact spelling of a reference is not fixed by the property: the output is judged by Trace_C07
      expect |-> [ok |-> TRUE, out |-> <<>>, noout |-> TRUE, err |-> "", calls |-> [id \in {} |-> 0], anyoutcome |-> c.pos \in MayFail]]
 
